@@ -91,9 +91,14 @@ class AccountMonitor:
                 # account already differs: report through compare(), decide the boundary with jesse's number
                 self.compare(c, 'before-submit')
                 have = jhave
-            if abs(need - have) <= 1e-9 * max(1.0, abs(need)):
+            if need == have and have == jhave:
+                # exactly at the limit, and the model's margin is bit-equal to jesse's: the stated rule
+                # ("exceeds") accepts
+                self.pred = ('accept', need, have)
+                c.count('c03_exact_boundary_submissions')
+            elif abs(need - have) <= 1e-9 * max(1.0, abs(need)):
                 self.pred = ('boundary', need, have)
-                c.count('c03_boundary_submissions')
+                c.count('c03_near_boundary_submissions')
             else:
                 self.pred = ('reject' if need > have else 'accept', need, have)
         else:
